@@ -131,7 +131,7 @@ Profiles == << {"challenge-http-01"}, {"challenge-http-01", "challenge-http-01-c
                {"file-post-create", "file-post-edit", "challenge-http-01", "post-operation"},    \* one hook on both families of events
                {"file-pre-create", "file-pre-edit", "challenge-http-01-clean"} >>
 Shapes == << <<"h1", "h2", "h3">>, <<"h3", "g1">>, <<"g1", "h3", "h1">>, <<"g2", "g1">>, <<"h2", "g2", "h2">>, <<"g1">> >>
-MCGroups == << [name |-> "g1", hooks |-> <<"h1", "g2">>], [name |-> "g2", hooks |-> <<"h2", "h1">>] >>
+MCGroups == << [name |-> "g1", hooks |-> <<"h1", "g2", "h3">>], [name |-> "g2", hooks |-> <<"h2", "h1">>] >>      \* g2 sits in the middle of g1
 EventTypes == {"challenge-http-01", "challenge-http-01-clean", "post-operation", "file-pre-create", "file-post-create"}
 
 VARIABLE mc     \* [prof, allow, exit, shape]
